@@ -110,7 +110,8 @@ def gen_plan(prop, r, tier, run):
     ops = []
     if r.chance(0.3):
         ops.append({'op': 'insert', 'rows': gen_rows(r, cols,
-                                                     r.randint(1, 3))})
+                                                     r.randint(1, 3)),
+                    'commit': r.chance(0.7)})
     rex = r.chance(0.5)
     ops.append({'op': 'discover', 'rex': rex})
     ops.append({'op': 'verify'})
@@ -118,7 +119,7 @@ def gen_plan(prop, r, tier, run):
         k = r.weighted([(7, 'rogue'), (1, 'rediscover'), (0.5, 'delete_all')])
         if k == 'rogue':
             ops.append({'op': 'rogue_insert', 'pick': r.random(),
-                        'pick2': r.random()})
+                        'pick2': r.random(), 'commit': r.chance(0.65)})
             ops.append({'op': 'verify'})
         elif k == 'rediscover':
             ops.append({'op': 'discover', 'rex': r.chance(0.5)})
@@ -149,7 +150,7 @@ def gen_recreate(r, cols):
            {'op': 'verify'}]
     for _ in range(r.weighted([(1, 0), (4, 1), (2, 2)])):
         ops.append({'op': 'rogue_insert', 'pick': r.random(),
-                    'pick2': r.random()})
+                    'pick2': r.random(), 'commit': r.chance(0.65)})
         ops.append({'op': 'verify'})
     return ops
 
@@ -248,16 +249,22 @@ def execute(plan):
             'sim_time': 0}
 
 
-def insert_rows(ctx, rows):
+def insert_rows(ctx, rows, commit=True):
     cur = ctx.conn.cursor()
     ph = ', '.join('?' for _ in ctx.cols)
     for row in rows:
         cur.execute('INSERT INTO %s VALUES (%s)' % (ctx.table, ph), row)
-    ctx.conn.commit()
+    if commit:
+        ctx.conn.commit()
+    elif rows:
+        # the writer's transaction is still open on the connection that is
+        # handed to tdda: its rows are part of the table as that connection
+        # sees it
+        ctx.stats['faults']['write_left_uncommitted'] += 1
 
 
 def op_insert(ctx, op):
-    insert_rows(ctx, op['rows'])
+    insert_rows(ctx, op['rows'], commit=op.get('commit', True))
     if ctx.cs is not None:
         ctx.clean = False
     ctx.stats['probes']['rows_written_before_discovery'] += 1
@@ -465,7 +472,7 @@ def op_rogue_insert(ctx, op):
             continue
         row = list(base_row) if base_row is not None else [None] * len(names)
         row[names.index(f)] = val
-        insert_rows(ctx, [row])
+        insert_rows(ctx, [row], commit=op.get('commit', True))
         ctx.clean = False
         ctx.rogue = {'field': f, 'kind': k, 'value': v, 'row': row}
         ctx.stats['faults']['rogue_' + k] += 1
